@@ -83,7 +83,7 @@ impl Model {
             .filter(|s| s.alive && s.folder == f)
             .collect()
     }
-    fn canon(&self) -> String {
+    fn canon(&self, budgeted: bool) -> String {
         let f: Vec<String> = self
             .folders
             .iter()
@@ -105,13 +105,19 @@ impl Model {
             })
             .collect();
         format!(
-            "F[{}] S[{}] pw{} c{} m{} K{:?}",
+            "F[{}] S[{}] pw{} c{} m{} K{:?}{}",
             f.join(","),
             s.join(","),
             self.password % 2,
             self.cipher % 2,
             (self.maint > 0) as u8,
-            self.compacted
+            self.compacted,
+            if budgeted {
+                // remaining per-path budgets are part of the state
+                format!(" B{}/{}", self.edits, self.maint)
+            } else {
+                String::new()
+            }
         )
     }
     fn expected_view(&self) -> Vec<Value> {
@@ -200,6 +206,13 @@ struct Profile {
     extra_variants: bool,
     relogin_same_object: bool,
     rich_initial: bool,
+    /// true: a path is executed in ONE signed-in session from the initial
+    /// snapshot (no state merging); false: every transition starts from
+    /// the persisted parent state with a fresh sign-in (states merged)
+    #[serde(default)]
+    session: bool,
+    #[serde(default)]
+    small_alphabet: bool,
 }
 
 fn profile(prop: &str, tier: Tier) -> Profile {
@@ -207,14 +220,16 @@ fn profile(prop: &str, tier: Tier) -> Profile {
     match prop {
         "C12" => Profile {
             prop: prop.into(),
-            depth: if q { 3 } else { 5 },
+            depth: 3,
             kinds: vec!["note".into()],
             max_slots: 3,
-            maint_words: if q { 2 } else { 3 },
+            maint_words: 2,
             prefix_depth: if q { 1 } else { 2 },
             extra_variants: false,
             relogin_same_object: false,
             rich_initial: true,
+            session: true,
+            small_alphabet: q,
         },
         _ => Profile {
             prop: prop.into(),
@@ -230,16 +245,43 @@ fn profile(prop: &str, tier: Tier) -> Profile {
             extra_variants: true,
             relogin_same_object: !q,
             rich_initial: true,
+            session: true,
+            small_alphabet: false,
         },
     }
 }
 
 fn enabled(m: &Model, p: &Profile) -> Vec<Op> {
+    let ops = enabled_full(m, p);
+    if p.maint_words > 0 && p.small_alphabet {
+        // quick C12: a small alphabet so that depth 3 (any interleaving
+        // of one edit and two maintenance operations) stays affordable
+        ops.into_iter()
+            .filter(|o| match o {
+                Op::Create { f, .. } => *f == 0,
+                Op::Delete { s } => *s == 0,
+                Op::SetFlags { f } | Op::DeleteFolder { f } => *f == 2,
+                Op::CompactFolder { f } => *f == 2,
+                Op::ChangeFolderPassword { f } => *f == 3,
+                Op::CompactAccount
+                | Op::ChangeAccountPassword
+                | Op::ChangeCipher => true,
+                _ => false,
+            })
+            .collect()
+    } else {
+        ops
+    }
+}
+
+fn enabled_full(m: &Model, p: &Profile) -> Vec<Op> {
     let mut ops = vec![];
-    let maint_phase = p.maint_words > 0
-        && (m.maint > 0 || m.edits as usize >= p.prefix_depth);
+    // C12: edits and maintenance operations interleave freely, each kind
+    // bounded per path (a key change followed by a folder delete followed
+    // by another key change is a path of the search)
+    let maint_phase = p.maint_words > 0;
     let edits_allowed = if p.maint_words > 0 {
-        m.maint == 0 && (m.edits as usize) < p.prefix_depth
+        (m.edits as usize) < p.prefix_depth
     } else {
         true
     };
@@ -285,11 +327,17 @@ fn enabled(m: &Model, p: &Profile) -> Vec<Op> {
                 s: i,
                 with_value: true,
             });
-            ops.push(Op::Update {
-                s: i,
-                with_value: false,
-            });
+            if p.maint_words == 0 {
+                ops.push(Op::Update {
+                    s: i,
+                    with_value: false,
+                });
+            }
             ops.push(Op::Delete { s: i });
+            if p.maint_words > 0 {
+                // C12 alphabet: no archive / move
+                continue;
+            }
             if in_archive {
                 ops.push(Op::Unarchive { s: i });
             } else {
@@ -308,7 +356,7 @@ fn enabled(m: &Model, p: &Profile) -> Vec<Op> {
             .count();
         let total_user =
             m.folders.iter().filter(|f| f.role == "user").count();
-        if n_user < 1 && total_user < 2 {
+        if n_user < 1 && total_user < 3 {
             ops.push(Op::CreateFolder);
         }
         for (i, f) in m.folders.iter().enumerate() {
@@ -326,8 +374,12 @@ fn enabled(m: &Model, p: &Profile) -> Vec<Op> {
     if maint_phase && (m.maint as usize) < p.maint_words {
         for (i, f) in m.folders.iter().enumerate() {
             if f.alive && f.role != "archive" {
-                ops.push(Op::CompactFolder { f: i });
-                ops.push(Op::ChangeFolderPassword { f: i });
+                if i <= 2 {
+                    ops.push(Op::CompactFolder { f: i });
+                }
+                if f.role == "user" || !p.prop.is_empty() && m.folders.len() <= 3 {
+                    ops.push(Op::ChangeFolderPassword { f: i });
+                }
             }
         }
         ops.push(Op::CompactAccount);
@@ -1306,6 +1358,7 @@ struct StateItem {
 #[allow(clippy::too_many_arguments)]
 async fn transition(
     parent: &StateItem,
+    session_prefix: &[Op],
     op: &Op,
     p: &Profile,
     out_dir: &Path,
@@ -1332,6 +1385,15 @@ async fn transition(
             }
         };
     let _ = dev.account.initialize_search_index().await;
+    // session mode: the whole history runs in this one signed-in
+    // session (in-memory state carries over from operation to operation)
+    for (i, pre) in session_prefix.iter().enumerate() {
+        if let Err(e) = apply(&mut dev, &mut m, pre).await {
+            fails.push("MACH", "prefix".into(), format!("replaying prefix op {} ({}) failed: {}", i, pre.kind(), e), json!({}));
+            dev.close().await;
+            return (None, fails);
+        }
+    }
     // remember old folder keys / blobs for C12
     let old_keys = if op.is_maint() {
         capture_old(&dev, &m).await
@@ -1465,7 +1527,7 @@ async fn transition(
             d3.close().await;
         }
     }
-    let canon = format!("{} L{:?}", m.canon(), shape);
+    let canon = format!("{} L{:?}", m.canon(p.maint_words > 0), shape);
     (Some((m, canon)), fails)
 }
 
@@ -1477,6 +1539,7 @@ struct WorkItem {
 
 async fn expand(
     item: &StateItem,
+    session_prefix: &[Op],
     op: &Op,
     p: &Profile,
     succ_root: &Path,
@@ -1485,8 +1548,20 @@ async fn expand(
     let mut counters = Counters::default();
     let mut blobs = vec![];
     let dir = succ_root.join(format!("s{}", idx));
-    let (succ, fails) =
-        transition(item, op, p, &dir, &mut counters, &mut blobs).await;
+    let (succ, fails) = transition(
+        item,
+        session_prefix,
+        op,
+        p,
+        &dir,
+        &mut counters,
+        &mut blobs,
+    )
+    .await;
+    if p.session {
+        // successors are re-created by re-executing the path
+        let _ = std::fs::remove_dir_all(&dir);
+    }
     let f: Vec<Value> = fails.0.iter().map(|(pp,s,w,d)| json!({"prop":pp,"sig":s,"what":w,"detail":d})).collect();
     let out = match succ {
         Some((m, canon)) => json!({"op": op, "model": m, "canon": canon, "dir": dir.to_string_lossy(), "fails": f}),
@@ -1510,6 +1585,7 @@ async fn initial_state(
     dir: &Path,
     backend: Backend,
     rich: bool,
+    second_user_folder: bool,
 ) -> Result<StateItem> {
     clock::install();
     let mut dev = Dev::create(dir, backend, "verif-account", true).await?;
@@ -1546,6 +1622,10 @@ async fn initial_state(
         edits: 0,
         compacted: vec![false; 3],
     };
+    if second_user_folder {
+        apply(&mut dev, &mut model, &Op::CreateFolder).await?;
+        model.edits = 0;
+    }
     // start from a non-empty account: one note in the default folder,
     // one login in the user folder (so that row-splicing, moves into a
     // non-empty folder, deleting the first of two rows ... are depth-1/2)
@@ -1576,22 +1656,37 @@ fn main() {
     if let Ok(d) = std::env::var("HIST_DEPTH") {
         p.depth = d.parse().unwrap();
     }
+    if let Ok(m) = std::env::var("HIST_MODE") {
+        p.session = m != "snapshot";
+    }
 
     if pool::worker_stage().is_some() {
         let input = std::env::var("VKIT_INPUT").expect("VKIT_INPUT");
-        let (frontier, items): (Vec<StateItem>, Vec<WorkItem>) =
+        let (init, frontier, items): (StateItem, Vec<StateItem>, Vec<WorkItem>) =
             serde_json::from_slice(&std::fs::read(&input).unwrap()).unwrap();
         let succ_root = PathBuf::from(std::env::var("VKIT_SUCC").unwrap());
         let rt = rt();
         pool::worker_loop(|idx| {
             let it = &items[idx];
-            rt.block_on(expand(
-                &frontier[it.state],
-                &it.op,
-                &p,
-                &succ_root,
-                idx,
-            ))
+            if p.session {
+                rt.block_on(expand(
+                    &init,
+                    &frontier[it.state].hist,
+                    &it.op,
+                    &p,
+                    &succ_root,
+                    idx,
+                ))
+            } else {
+                rt.block_on(expand(
+                    &frontier[it.state],
+                    &[],
+                    &it.op,
+                    &p,
+                    &succ_root,
+                    idx,
+                ))
+            }
         });
     }
 
@@ -1621,7 +1716,7 @@ fn main() {
     for b in &backends {
         let cfg_dir = wd.path().join(b.name());
         std::fs::create_dir_all(&cfg_dir).unwrap();
-        let init = match rt.block_on(initial_state(&cfg_dir.join("init"), *b, p.rich_initial))
+        let init = match rt.block_on(initial_state(&cfg_dir.join("init"), *b, p.rich_initial, p.maint_words > 0))
         {
             Ok(i) => i,
             Err(e) => {
@@ -1630,7 +1725,8 @@ fn main() {
             }
         };
         let mut seen: HashSet<String> = HashSet::new();
-        seen.insert(init.model.canon());
+        seen.insert(init.model.canon(p.maint_words > 0));
+        let init_item = init.clone();
         let mut frontier = vec![init];
         let mut levels = vec![];
         let mut hc: HashMap<String, String> = HashMap::new();
@@ -1647,7 +1743,7 @@ fn main() {
             }
             std::fs::write(
                 &input,
-                serde_json::to_vec(&(&frontier, &items)).unwrap(),
+                serde_json::to_vec(&(&init_item, &frontier, &items)).unwrap(),
             )
             .unwrap();
             let succ_root = cfg_dir.join(format!("level-{}", d + 1));
@@ -1724,7 +1820,8 @@ fn main() {
                             }
                             let dir =
                                 s["dir"].as_str().unwrap().to_string();
-                            if seen.insert(canon) {
+                            let fresh = seen.insert(canon);
+                            if fresh || p.session {
                                 next.push(StateItem {
                                     hist: h,
                                     model: serde_json::from_value(
@@ -1746,7 +1843,7 @@ fn main() {
             }
             // parents are no longer needed
             for it in &frontier {
-                if !it.hist.is_empty() {
+                if !it.hist.is_empty() && !p.session {
                     let _ = std::fs::remove_dir_all(&it.dir);
                 }
             }
@@ -1809,14 +1906,18 @@ fn replay(path: &Path, prop: &str, p: &Profile) -> i32 {
         let wd = fsutil::WorkDir::new(&format!("hist-r{}", round));
         let sigs: Vec<(String, String)> = rt.block_on(async {
             let mut item =
-                initial_state(&wd.path().join("init"), backend, p.rich_initial).await.unwrap();
+                initial_state(&wd.path().join("init"), backend, p.rich_initial, p.maint_words > 0).await.unwrap();
             let mut sigs = vec![];
             let mut c = Counters::default();
             let mut blobs = vec![];
+            let init0 = item.clone();
             for (i, op) in hist.iter().enumerate() {
                 let dir = wd.path().join(format!("s{}", i));
-                let (succ, fails) =
-                    transition(&item, op, p, &dir, &mut c, &mut blobs).await;
+                let (succ, fails) = if p.session {
+                    transition(&init0, &hist[..i], op, p, &dir, &mut c, &mut blobs).await
+                } else {
+                    transition(&item, &[], op, p, &dir, &mut c, &mut blobs).await
+                };
                 for (pp, s, w, _) in fails.0 {
                     if pp == prop {
                         sigs.push((s, w));
